@@ -6,7 +6,9 @@ of the expected rule) and `twin` variants (behaviour-preserving refactorings;
 the check must stay silent and decided).  Variants are in-memory overlays of one
 or more files (nothing is written to disk); each is compiled first so that it
 "still builds".  A variant whose anchor text is not present in the current tree
-is skipped and counted.
+is skipped and counted.  Findings that the *unmodified* tree already has (known
+findings, or defects not yet triaged) are not attributed to a variant: a variant
+is judged on the findings it adds.
 
 Firings here concern scratch variants, never /repo: they are printed as
 SELFTEST lines, never as VIOLATION.
@@ -53,8 +55,14 @@ def _apply(repo_root: str, v: Variant) -> T.Optional[T.Dict[str, str]]:
     return overlay
 
 
-def _run_one(args: T.Tuple[str, str, Variant]) -> T.Dict[str, T.Any]:
-    prop, repo_root, v = args
+def _baseline(prop: str, repo_root: str) -> T.List[T.Tuple[str, str, str, str]]:
+    from .main import run_check
+    chk = run_check(prop, repo_root, 'quick', 0, None, None)
+    return [f.key() for f in chk.findings()]
+
+
+def _run_one(args: T.Tuple[str, str, Variant, T.List[T.Tuple[str, str, str, str]]]) -> T.Dict[str, T.Any]:
+    prop, repo_root, v, baseline = args
     from .main import run_check
     from .report import load_known
     try:
@@ -65,6 +73,8 @@ def _run_one(args: T.Tuple[str, str, Variant]) -> T.Dict[str, T.Any]:
         return {'vid': v.vid, 'kind': v.kind, 'status': 'skipped', 'detail': 'anchor text not present in the current tree'}
     chk = run_check(prop, repo_root, 'quick', 0, None, overlay)
     known, new = chk.split_known(load_known())
+    # findings the unmodified tree already has (known or not) are not attributed to the variant
+    new = [f for f in new if f.key() not in set(baseline)]
     fired = sorted({f.rule for f in new})
     res: T.Dict[str, T.Any] = {'vid': v.vid, 'kind': v.kind, 'fired': fired, 'errors': chk.errors[:3], 'expect': v.expect,
                                'messages': [f'{f.rule} {f.module}:{f.line} {f.function}: {f.message}'[:240] for f in new[:3]]}
@@ -90,7 +100,8 @@ def run_matrix(prop: str, repo_root: str, jobs: int = 16) -> T.Dict[str, T.Any]:
     results: T.List[T.Dict[str, T.Any]] = []
     if variants:
         with concurrent.futures.ProcessPoolExecutor(max_workers=min(jobs, len(variants))) as ex:
-            results = list(ex.map(_run_one, [(prop, repo_root, v) for v in variants]))
+            base = _baseline(prop, repo_root)
+            results = list(ex.map(_run_one, [(prop, repo_root, v, base) for v in variants]))
     failures: T.List[str] = []
     for r in results:
         lines.append(f'SELFTEST property={prop} variant={r["vid"]} kind={r["kind"]} -> {r["status"]}'
